@@ -46,13 +46,18 @@ theorem C16_padded_width (w : Nat) (left : Bool) (val : Bytes) :
   simp only [pad]
   cases left <;> simp only [Bool.false_eq_true, if_false, if_true, charCount_append, charCount_blanks] <;> omega
 
-/-- %p is the path exactly as -print prints it. -/
-theorem C16_p_is_print (start : Bytes) (v : Visit Attr) (s : ES) :
+/-- %p is the path exactly as -print prints it (for paths that are valid UTF-8: both go through
+    `to_string_lossy`, which the renderer model does not apply — names that are not valid UTF-8 are
+    outside the modelled fragment of -printf). -/
+theorem C16_p_is_print (start : Bytes) (v : Visit Attr) (s : ES)
+    (hv : FuModel.Utf8.validUtf8 (pathOf start v.ent.rpath) = true) :
     value start v .p = some (pathOf start v.ent.rpath) ∧
     (sem start v (.pathOut [] [10]) s).2.gs.out = s.gs.out ++ pathOf start v.ent.rpath ++ [10] := by
+  have hl : FuModel.Utf8.lossy (pathOf start v.ent.rpath) = pathOf start v.ent.rpath := by
+    simpa [FuModel.Utf8.validUtf8] using hv
   constructor
   · rfl
-  · simp [sem]
+  · simp [sem, hl]
 
 theorem intercalate_slash (n : Name) (names : List Name) :
     List.intercalate [47] (n :: names) = n ++ names.flatMap (47 :: ·) := by
